@@ -23,8 +23,8 @@ ASSUMPTIONS = ["asyncio.Lock is FIFO-fair", "message parts are bytes, str, mappi
 
 
 class FakeSocket:
-    def __init__(self, rng, log):
-        self.rng, self.log = rng, log
+    def __init__(self, rng, log, scale=1):
+        self.rng, self.log, self.scale = rng, log, scale
 
     def write(self, parts):
         # like aiozmq's transport, the socket keeps the very object it was handed (a message that
@@ -35,7 +35,7 @@ class FakeSocket:
         for _ in range(self.rng.choice((0, 0, 1, 3))):
             await asyncio.sleep(0)
         if self.rng.random() < 0.3:
-            await asyncio.sleep(self.rng.choice((1e-6, 5e-6)))
+            await asyncio.sleep(self.rng.choice((1e-6, 5e-6)) * self.scale)
 
     def close(self):
         pass
@@ -46,14 +46,17 @@ def one_run(seed, n_queue, n_direct_seqs):
     from tickit.adapters.zmq import ZeroMqPushAdapter
     rng = random.Random(seed)
     writes, calls = [], []
+    # the peer's pace: microseconds, milliseconds, or SECONDS per accepted message / connection (virtual time) -
+    # the property quantifies over every latency, and timeouts in the io would only show at the slow end
+    scale = rng.choice((1, 1, 1, 1e3, 1e6, 3e6))
 
     async def factory(host, port):
         calls.append(1)
         for _ in range(rng.choice((0, 1, 2, 5))):
             await asyncio.sleep(0)
         if rng.random() < 0.5:
-            await asyncio.sleep(rng.choice((1e-6, 3e-6, 1e-5)))
-        return FakeSocket(rng, writes)
+            await asyncio.sleep(rng.choice((1e-6, 3e-6, 1e-5)) * scale)
+        return FakeSocket(rng, writes, scale)
 
     queued, direct = [], []
 
@@ -87,7 +90,7 @@ def one_run(seed, n_queue, n_direct_seqs):
             # a backlog that keeps being fed while it drains: further messages are queued at instants of their own while
             # earlier ones are still waiting behind the socket's latency
             for j in range(60):
-                await asyncio.sleep(rng.choice((0, 0, 1e-6, 2e-6, 3e-6)))
+                await asyncio.sleep(rng.choice((0, 0, 1e-6, 2e-6, 3e-6)) * scale)
                 msg = [b"q%d" % (n_queue + j)]
                 queued.append(msg)
                 adapter.add_message_to_stream(msg)
@@ -95,7 +98,9 @@ def one_run(seed, n_queue, n_direct_seqs):
         for _ in range(4000):
             if len(writes) >= total:
                 break
-            await asyncio.sleep(1e-6)
+            await asyncio.sleep(1e-6 * scale)
+        for _ in range(3):   # a write that is repeated after the stream looks complete must still show
+            await asyncio.sleep(2e-6 * scale)
         await io.shutdown()
         return True
 
